@@ -290,6 +290,12 @@ func runC10(script *Scenario, d C10Disturbance) (*c10Result, error) {
 				asInt(asMap(o["status"])["revision"]) < newestRev && len(controllerOfList(asMap(o["status"]))) == 0 {
 				r.Labels["paused-unavailable-revision-controlling-nothing"] = true
 			}
+			// situation of open finding O10: a revision paused as an archival candidate while it was briefly unavailable became
+			// Available again; it no longer qualifies for archival, and nothing ever unpauses it
+			if lifecycleOf(o) == "Paused" && condTrue(o, "Paused") && condTrue(o, "Available") && !newestAvailable &&
+				asInt(asMap(o["status"])["revision"]) < newestRev && kubesim.AnnotationsOf(o)["package-operator.run/paused-by-parent"] == "" {
+				r.Labels["revision-paused-for-archival-is-available-again"] = true
+			}
 		}
 	}
 	if ok {
@@ -357,6 +363,8 @@ func checkC10(ref, got *c10Result) error {
 			key += ":paused-objectset-never-reaches-later-delegated-phase"
 		} else if got.labels["paused-unavailable-revision-controlling-nothing"] && !ref.labels["paused-unavailable-revision-controlling-nothing"] {
 			key += ":unavailable-revision-controlling-nothing-never-archived"
+		} else if got.labels["revision-paused-for-archival-is-available-again"] && !ref.labels["revision-paused-for-archival-is-available-again"] {
+			key += ":revision-paused-for-archival-became-available-again"
 		}
 		return Violf("C10", key, "the end state differs from the undisturbed run: %s (all differing objects: %v)", firstDiff(ref.proj, got.proj), others)
 	}
